@@ -24,6 +24,8 @@ def ev(e, env):
     if isinstance(e, ast.Name):
         if e.id in env:
             return env[e.id]
+        if e.id in env.get('__consts__', {}):
+            return env['__consts__'][e.id]
         raise KeyError(e.id)
     if isinstance(e, (ast.Tuple, ast.List)):
         v = [ev(x, env) for x in e.elts]
@@ -120,8 +122,39 @@ def ev(e, env):
     raise KeyError(type(e).__name__)
 
 
+class _Break(Exception):
+    pass
+
+
+class _Continue(Exception):
+    pass
+
+
 def _block(stmts, env):
     for st in stmts:
+        if isinstance(st, ast.For) and isinstance(st.target, ast.Name) and not st.orelse:
+            n = 0
+            for x in list(ev(st.iter, env)):
+                n += 1
+                if n > 1000:
+                    raise KeyError('loop bound')
+                env[st.target.id] = x
+                try:
+                    _block(st.body, env)
+                except _Continue:
+                    continue
+                except _Break:
+                    break
+            continue
+        if isinstance(st, ast.Continue):
+            raise _Continue()
+        if isinstance(st, ast.Break):
+            raise _Break()
+        if isinstance(st, ast.Expr) and isinstance(st.value, ast.Call) and isinstance(st.value.func, ast.Attribute) and \
+                st.value.func.attr == 'append' and isinstance(st.value.func.value, ast.Name) and len(st.value.args) == 1 and \
+                isinstance(env.get(st.value.func.value.id), list):
+            env[st.value.func.value.id].append(ev(st.value.args[0], env))
+            continue
         if isinstance(st, ast.Return):
             raise _Return(ev(st.value, env) if st.value is not None else None)
         elif isinstance(st, ast.If):
@@ -140,7 +173,7 @@ def fold_function(fnode, args):
         _block(fnode.body, env)
     except _Return as r:
         return r.v
-    except (KeyError, TypeError, IndexError, AttributeError):
+    except (KeyError, TypeError, IndexError, AttributeError, _Break, _Continue):
         return UNKNOWN
     return None
 
